@@ -236,7 +236,7 @@ impl Prop for C01 {
             }
         };
         let sign = pick_feed_sign(r, std::slice::from_ref(&tree));
-        let shape = r.below(SHAPES.len()) as u8;
+        let shape = crate::feed::shape_for(std::slice::from_ref(&tree), r.below(SHAPES.len()) as u8);
         let scale = crate::feed::pick_scale(r, !tree.needs_positive_feed() && !tree.contains(K::Mul));
         // mostly 50-400 values; 2% of runs are long, for logic that only engages after thousands of updates
         let len = if r.chance(0.012) { crate::feed::long_len(r) } else { r.range(50, 400) };
